@@ -12,11 +12,15 @@ Oracles on the implementation (no model involved):
 Tie (model vs implementation): Back/InterpSem + Driver/ShadowGate extracted (nvref_c03) vs real nanoc on every case, including
 the clash stream, where the evaluator deviates from the language and the model must predict HOW.
 Streams: witnesses of the recorded findings; progen programs with generated shadow blocks (values from the reference);
-synthetic name-clash programs (shadowlib.clash_program)."""
+synthetic name-clash programs (shadowlib.clash_program); layouts: several shadow blocks per function, blocks before / far from
+their function, blocks for functions imported from a module (shadowlib.layout); and the stream "builtins in shadow tests"
+(c03_builtins.py): every pure builtin of c01_builtins.py's table on boundary operands (its pools + ints around 2^53 / 2^62), one
+case per function, printed by the shadow block at compile time and by main in the compiled program, compared byte for byte."""
 import os, sys, random, collections, json
 import vlib, progen, langlib
 import shadowlib as S
 import shadow_witnesses as W
+import c03_builtins as BB
 
 MODEL_BOUNDARY = {'c03:void-call-value'}     # the model does not claim to predict the evaluator here (see InterpSem.v header)
 
@@ -196,6 +200,12 @@ def run(ck):
     for c in clash:
         record(ck, c, evaluate(ck, c, 'clash', want_native=False), 'clash')
         ck.extra['apart']['clash-' + str(c.m_apart)] += 1
+    # 4. builtins in shadow tests (table and pools of c01_builtins.py + ints around 2^53 / 2^62): compile time vs the compiled program
+    for k in ('builtins_unobservable', 'builtin_differences'):
+        ck.extra[k] = collections.Counter()
+    BB.run_stream(ck, b, openk)
+    for k in ('builtins_unobservable', 'builtin_differences'):
+        ck.extra[k] = dict(ck.extra[k])
     if cases:
         c = cases[0]
         ck.sample(dict(source=c.s_src[:1500], compile_time=[(t[0], t[1].decode('latin1')[:200], t[2]) for t in S.real_tests(c)],
@@ -217,6 +227,8 @@ def run(ck):
 
 
 def replay(ck, d):
+    if 'builtin_case' in d:
+        return BB.replay_case(ck, ck.build('plain'), d)
     b = ck.build('plain'); nvl = ck.nvref('lang'); nv3 = ck.nvref('c03')
     c = S.Case()
     c.id, c.mode, c.seed, c.tag, c.feat, c.picked = d.get('case', 'replay'), d.get('mode', '?'), 0, 'replay', {}, []
